@@ -429,7 +429,9 @@ func Locations(w *World, v reflect.Value) map[verifsim.FaultKey][]verifsim.WrapE
 			}
 		case reflect.Map:
 			for _, k := range SortedKeys(v) {
-				p := ext(path, verifsim.WrapElem{Kind: "key", Value: fmt.Sprintf("%v", k.Interface())})
+				// the SOURCE map key, with its type: a path that carries the converted key
+				// instead is wrong even when both print alike
+				p := ext(path, verifsim.WrapElem{Kind: "key", Value: fmt.Sprintf("%T(%v)", k.Interface(), k.Interface())})
 				walk(k, p)
 				walk(v.MapIndex(k), p)
 			}
